@@ -59,7 +59,8 @@ def readLen : Bytes → Res (Nat × Bytes)
 def fillBuffer (buf : Bytes) (bs : Bytes) : Res (Nat × Bytes × Bytes) :=
   match readLen bs with
   | .ok (len, r) =>
-    if r.length < len then .err "io"
+    -- `read_exact`: fewer than `len` bytes left (tested on the prefix, so that reading a record costs its own size)
+    if (r.take len).length < len then .err "io"
     else .ok (len, (if buf.length < len then r.take len else r.take len ++ buf.drop len), r.drop len)
   | .err e => .err e
   | .panic s => .panic s
@@ -70,7 +71,7 @@ def readRecord (bs : Bytes) : Res (Nat × Bytes × Bytes) :=
   match readType bs with
   | .ok (t, r) =>
     match readLen r with
-    | .ok (len, r') => if r'.length < len then .err "io" else .ok (t, r'.take len, r'.drop len)
+    | .ok (len, r') => if (r'.take len).length < len then .err "io" else .ok (t, r'.take len, r'.drop len)
     | .err e => .err e
     | .panic s => .panic s
     | .outOfFuel => .outOfFuel
